@@ -26,12 +26,18 @@ INS = 'compress::SuffixDict::insert'
 def dict_offsets_rule(ctx, facts, cfg):
     rid = 'C06.a'
     tops = ['renamer::Renamer::copy_with_replaced_name', 'compress::Compress::copy_compressed_name']
+    # every body that calls the worker directly is a call site to discharge (the two known ones must exist; others are added as found)
+    for key, f_ in sorted(facts.fns.items()):
+        if key in tops or key == WORK:
+            continue
+        if any(b['term']['k'] == 'call' and WORK in [ck for ck in facts.callee_keys(f_, b['term'])] for _, b in F.blocks(f_)):
+            tops.append(key)
     n_sites = 0
     for top in tops:
         if facts.fn(top) is None:
             ctx.missing(rid, top)
             continue
-        e4 = E4(facts, rule_c06a=True, opaque=['SuffixDict::insert', 'Renamer::replace_raw'])
+        e4 = E4(facts, rule_c06a=True, havoc=8 if top not in tops[:2] else None, opaque=['SuffixDict::insert', 'Renamer::replace_raw'])
         try:
             S = e4.summarize(top)
         except Exception as e:  # noqa
